@@ -125,7 +125,8 @@ class ArithHooks(Hooks):
 
     def _snapshot(self, it):
         L = it.L
-        return {k: MS.of(v) for k, v in it.store.items() if isinstance(v, L.radiometry.Spectrum) and wellformed_obj(v)[0]}
+        return {k: MS.of(v) for k, v in it.store.items()
+                if isinstance(v, L.radiometry.Spectrum) and np.size(v.wave) <= 200000 and wellformed_obj(v)[0]}
 
     def before(self, it, i, ev):
         self.snap = self._snapshot(it)
@@ -180,6 +181,11 @@ class ArithHooks(Hooks):
                        '%s accepted an operand it must refuse (%s)' % (fn, tag.get('why')), i)
             return
         r = out.value
+        if isinstance(r, S) and np.size(r.wave) > 200000:
+            # no generated operand pair calls for a grid of this size (premise gate above); do not even copy it
+            it.violate('C13.pointwise', {'fn': fn, 'what': 'grid'}, '%s: result grid has %d points' % (fn, np.size(r.wave)), i)
+            it.store.pop(ev.get('id'), None)
+            return
         if not isinstance(r, S) or not wellformed_obj(r)[0]:
             it.violate('C13.pointwise', {'fn': fn, 'what': 'result-not-a-wellformed-spectrum'}, 'result %r' % (type(r).__name__,), i)
             return
@@ -590,6 +596,8 @@ class SpectrumArithScenario(Scenario):
                     if ev.get('c') != c or not ev.get('id') or ev['id'] in hooks.touched:
                         continue
                     x, y = it.store.get(ev['id']), solo.store.get(ev['id'])
+                    if any(isinstance(z, S) and np.size(z.wave) > 200000 for z in (x, y)):
+                        continue        # reported by the pointwise oracle; never copy such a grid
                     if (x is None) != (y is None):
                         extra.append(Violation('C13.serial', {'fn': ev['fn'], 'what': 'outcome'},
                                                'caller %d: %s succeeded in one execution and failed in the other' % (c, ev['fn'])).to_json())
